@@ -9,6 +9,7 @@ import (
 	"embed"
 	"encoding/pem"
 	"fmt"
+	"math/big"
 	"sync"
 )
 
@@ -38,5 +39,39 @@ func RSA(bits int) *rsa.PrivateKey {
 	}
 	k.Precompute()
 	cache[bits] = k
+	return k
+}
+
+// RSAWithExponent returns a 2048-bit key on the fixed primes of rsa2048e3.pem
+// with public exponent e (3, 5, 17, 257, 65537 and 2^31-1 are all coprime to
+// (p-1)(q-1) for these primes).
+func RSAWithExponent(e int) *rsa.PrivateKey {
+	mu.Lock()
+	defer mu.Unlock()
+	if k, ok := cache[-e]; ok {
+		return k
+	}
+	b, err := files.ReadFile("rsa2048e3.pem")
+	if err != nil {
+		panic(err)
+	}
+	blk, _ := pem.Decode(b)
+	base, err := x509.ParsePKCS1PrivateKey(blk.Bytes)
+	if err != nil {
+		panic(err)
+	}
+	p, q := base.Primes[0], base.Primes[1]
+	one := big.NewInt(1)
+	phi := new(big.Int).Mul(new(big.Int).Sub(p, one), new(big.Int).Sub(q, one))
+	d := new(big.Int).ModInverse(big.NewInt(int64(e)), phi)
+	if d == nil {
+		panic(fmt.Sprintf("testkeys: exponent %d not invertible", e))
+	}
+	k := &rsa.PrivateKey{PublicKey: rsa.PublicKey{N: new(big.Int).Set(base.N), E: e}, D: d, Primes: []*big.Int{new(big.Int).Set(p), new(big.Int).Set(q)}}
+	if err := k.Validate(); err != nil {
+		panic(err)
+	}
+	k.Precompute()
+	cache[-e] = k
 	return k
 }
